@@ -61,11 +61,11 @@ var pool = func() []poolEntry {
 			p = append(p, poolEntry{expr: e, fresh: fresh, core: core})
 		}
 	}
-	add(true, false, "nil", "true", "false", "-1", "0", "1", "255", "256", "2147483648", "math.maxinteger", "math.mininteger",
+	add(true, false, "nil", "true", "false", "-1", "0", "1", "255", "256", "2147483648", "2147483647", "0x10FFFF", "0x200000", "0x4000000", "65536", "math.maxinteger", "math.mininteger",
 		"2^53", "0.5", "-0.5", "(0/0)", "math.huge", "-math.huge",
 		`""`, `"a"`, `"%"`, `"%b"`, `"["`, `"(()"`, "C04.big", `"10"`, `"0x10"`, `"1e1"`, "io.stdout")
 	add(true, true, "{}", "{1,2,3}", "C04.errt()", "C04.fn()", "C04.deadco()", "C04.suspco()", "C04.file()", "C04.ctx()")
-	add(false, false, "2", "-0.0", "1e308", `" 7 "`, `"-"`, `"\0"`, `"\xe4\xb8\xad\xff"`,
+	add(false, false, "2", "127", "128", "0x7FF", "0x800", "0xFFFF", "0x110000", "0x1FFFFF", "0x3FFFFFF", "-0.0", "1e308", `" 7 "`, `"-"`, `"\0"`, `"\xe4\xb8\xad\xff"`,
 		`"%d"`, `"%s%s"`, `"%5.2f"`, `"%q"`, `"%c"`, `"%99d"`, `"%.99f"`, `"%a*"`, `"^(a*)*$"`, `"%f[%w]"`, `"%1"`,
 		`"i4"`, `"z"`, `"s1"`, `"!"`, `"i17"`, `"<I16"`, `"Xi4"`, `"c0"`, `"d"`,
 		`"r"`, `"w"`, `"n"`, `"l"`, `"*a"`, `"set"`, `"end"`, `"no"`, `"full"`, `"k"`, `"kv"`, `"count"`, `"step"`, `"*t"`, `"!%c"`, `"%Ez"`, `"Sl"`, `"crl"`, `"t"`, `"bt"`,
